@@ -53,6 +53,10 @@ def gen_txring(P):
                 else:
                     ops.append("tx flags")
             cases.append(ops)
+        # C19 "growth never loses bytes" against a real second thread (the harness runs a writer thread against
+        # thousands of grow() calls; the model answers "ok" by theorem grow_content): stand-alone cases
+        for _ in range(P.scale(tier, 3, 40)):
+            cases.append(["tx new 64", f"tx race {P.scale(tier, 20, 60)}"])
         return cases
     return gen
 
@@ -80,6 +84,11 @@ def oracle_txring(P):
         for op, out in zip(case, impl):
             t = op.split()
             if t[0] != "tx":
+                continue
+            if t[1] == "race":
+                if out != "ok":
+                    hits.append({"sig": {"oracle": "txring", "what": "bytes_lost_while_growing_under_a_concurrent_writer"},
+                                 "text": f"`{op}`: a writer thread kept calling poll_write while this thread grew and drained the buffer; {out}: bytes the writer was told were accepted did not come out (in order)"})
                 continue
             if out.startswith("PANIC") or out == "bad-op":
                 if out.startswith("PANIC"):
